@@ -1,1 +1,2 @@
+pub mod peer;
 pub mod tracker;
